@@ -77,6 +77,8 @@ class Verifier:
         # Check that phi's have inputs for each predecessor:
         for block in function:
             for phi in block.phis:
+                # No inputs from blocks which are not a predecessor:
+                assert set(phi.inputs) == set(block.predecessors)
                 for predecessor in block.predecessors:
                     used_value = phi.get_value(predecessor)
                     # Check that phi 'use' info is good:
